@@ -136,6 +136,8 @@ type Syn struct {
 	RichStr   bool // strings with escapes etc. (uses Str generator from literals.go)
 	Tpl       bool // backtick strings
 	MultiTpl  bool // backtick strings with line breaks
+	NoScale   bool // never scale a program up
+	Scaled    bool // set by Program when it scaled the program up
 }
 
 func (g *Syn) leaf() *ir.Node {
@@ -375,12 +377,79 @@ func (g *Syn) Stmt(sd int, inFunc bool, d int) *ir.Node {
 	}
 }
 
-// Program draws a whole program with up to max top-level statements.
+// Program draws a whole program with up to max top-level statements.  One
+// program in sixteen is scaled up (see scaleUp) unless NoScale is set.
 func (g *Syn) Program(max int) *ir.Node {
 	p := ir.N(ir.Program, "")
 	p.Kids = []*ir.Node{}
 	for i, k := 0, 1+g.R.Intn(max, "ntop"); i < k; i++ {
 		p.Kids = append(p.Kids, g.Stmt(g.StmtDepth, false, g.MaxDepth))
 	}
+	if !g.NoScale && g.R.Intn(16, "scale") == 0 {
+		g.scaleUp(p)
+		g.Scaled = true
+	}
 	return p
+}
+
+// scaleUp appends constructs whose *size* is unusual: nesting deeper than any
+// small fixed capacity (17..40 levels of blocks / functions / conditionals,
+// of parenthesised operands, of array literals and of call arguments), very
+// long identifiers and strings, and a run of 40..140 one-line statements with
+// distinct names (more than a hundred names, more than 64 lines, columns
+// beyond 64 and 1024).
+func (g *Syn) scaleUp(p *ir.Node) {
+	r := g.R
+	id := func(s string) *ir.Node { return ir.N(ir.Ident, s) }
+	switch r.Intn(5, "scalekind") {
+	case 0: // deep statement nesting
+		depth := 17 + r.Intn(24, "nestdepth")
+		var cur *ir.Node = ir.N(ir.Block, "", ir.N(ir.ExprStmt, "", ir.N(ir.Call, "", id("leaf"), id("a"))))
+		for i := 0; i < depth; i++ {
+			switch r.Intn(5, "nestkind") {
+			case 0:
+				cur = ir.N(ir.Block, "", cur, ir.N(ir.ExprStmt, "", id("n"+strconv.Itoa(i))))
+			case 1:
+				cur = ir.N(ir.Block, "", ir.N(ir.If, "", id("c"+strconv.Itoa(i)), cur, nil))
+			case 2:
+				cur = ir.N(ir.Block, "", ir.N(ir.While, "", id("w"), cur))
+			case 3:
+				cur = ir.N(ir.Block, "", &ir.Node{K: ir.FuncDecl, Op: "f" + strconv.Itoa(i), Params: []string{"p"}, Kids: []*ir.Node{cur}})
+			default:
+				fe := &ir.Node{K: ir.Func, Params: []string{}, Kids: []*ir.Node{cur}}
+				cur = ir.N(ir.Block, "", ir.N(ir.ExprStmt, "", ir.N(ir.Call, "", id("run"), fe)))
+			}
+		}
+		p.Kids = append(p.Kids, cur)
+	case 1: // deep expression nesting: operands that need parentheses at every level, arrays, calls
+		depth := 17 + r.Intn(24, "exprdepth")
+		e, arr, call := id("z"), id("z"), id("z")
+		for i := 0; i < depth; i++ {
+			if i%2 == 0 {
+				e = ir.N(ir.Binary, "+", id("a"), e)
+			} else {
+				e = ir.N(ir.Binary, "*", id("b"), e)
+			}
+			arr = ir.N(ir.Array, "", arr, ir.N(ir.Num, strconv.Itoa(i)))
+			call = ir.N(ir.Call, "", id("f"), call, id("k"))
+		}
+		p.Kids = append(p.Kids, ir.N(ir.Let, "deepExpr", e), ir.N(ir.Let, "deepArr", arr), ir.N(ir.ExprStmt, "", call))
+	case 2: // long tokens
+		long := strings.Repeat("longIdentifier_", 4+r.Intn(40, "idlen")) + "x"
+		text := strings.Repeat("some text ", 10+r.Intn(120, "strlen"))
+		p.Kids = append(p.Kids, ir.N(ir.Let, long, StrOf(text, "\"")), ir.N(ir.ExprStmt, "", ir.N(ir.Assign, "=", id(long), ir.N(ir.Binary, "+", id(long), ir.N(ir.Num, "12345678901234567")))))
+	case 3: // many one-line statements with distinct names
+		n := 40 + r.Intn(100, "nlines")
+		for i := 0; i < n; i++ {
+			name := "line" + strconv.Itoa(i)
+			p.Kids = append(p.Kids, ir.N(ir.Let, name, ir.N(ir.Binary, "+", id(name+"src"), ir.N(ir.Num, strconv.Itoa(i)))))
+		}
+	default: // one very long line: a call with many arguments (columns beyond 1024)
+		n := 60 + r.Intn(200, "nargs")
+		args := []*ir.Node{id("wide")}
+		for i := 0; i < n; i++ {
+			args = append(args, ir.N(ir.Binary, "==", id("arg"+strconv.Itoa(i)), ir.N(ir.Num, strconv.Itoa(i))))
+		}
+		p.Kids = append(p.Kids, ir.N(ir.ExprStmt, "", ir.N(ir.Call, "", args...)))
+	}
 }
